@@ -238,18 +238,46 @@ def durErrText : DurErr → Str
   | .invalid => "invalid duration".toList
   | .overflow m u => "overflowed duration ".toList ++ intDigits m ++ u ++ ": choose a smaller duration or INF".toList
 
+/-- `Parser.parseRegex()`; `none` is the typed nil. -/
+def parseRegex : P (Option Expr) := do
+  -- `if p.s.n > 0 { return nil, nil }`: no look-ahead in the rune reader while a token is pushed back
+  let s ← get
+  if s.n > 0 then pure none
+  else
+    let c0 ← peekRune
+    if isWhitespace c0 then consumeWhitespace
+    let c ← peekRune
+    let go : P (Option Expr) := do
+      let lx ← pscanRegex
+      if lx.tok = .BADESCAPE then failAt ("bad escape: ".toList ++ lx.lit) lx.pos
+      else if lx.tok = .BADREGEX then failAt ("bad regex: ".toList ++ lx.lit) lx.pos
+      else if lx.tok ≠ .REGEX then failFound lx ["regex"]
+      else pure (some (.regex lx.lit))
+    if c = '$' then
+      let lx ← pscan
+      unscan
+      if lx.tok ≠ .REGEX then pure none else go
+    else if c ≠ '/' then pure none
+    else go
+
+/-
+The mutually recursive part. One fuel counter, decreasing by one at every call and every loop
+iteration, so that the block is structurally recursive (and reduces in the kernel). Every call
+and every iteration consumes a rune or a pushed-back token, hence `fuelFor` is never exhausted
+(`C04.parseExpr_fuel_suffices`).
+-/
 mutual
   /-- `Parser.ParseExpr()`. -/
   def parseExpr : Nat → P Expr
     | 0 => throw .fuel
     | fuel + 1 => do
       let first ← parseUnaryExpr fuel
-      exprLoop fuel fuel first
+      exprLoop fuel first
 
   /-- The `for` loop of `ParseExpr`; `root` is `root.RHS`. -/
-  def exprLoop : Nat → Nat → Expr → P Expr
-    | 0, _, _ => throw .fuel
-    | iters + 1, fuel, root => do
+  def exprLoop : Nat → Expr → P Expr
+    | 0, _ => throw .fuel
+    | fuel + 1, root => do
       let op ← scanIW
       if !op.tok.isOperator then
         unscan
@@ -263,7 +291,7 @@ mutual
               let lx ← scanIW
               failFound lx ["regex"]
           else parseUnaryExpr fuel
-        exprLoop iters fuel (insertOp root op.tok rhs)
+        exprLoop fuel (insertOp root op.tok rhs)
 
   /-- `Parser.parseUnaryExpr()`. -/
   def parseUnaryExpr : Nat → P Expr
@@ -342,26 +370,6 @@ mutual
           else failFound t1 ["identifier", "number", "duration", "("]
         | _ => failFound lx ["identifier", "string", "number", "bool"]
 
-  /-- `Parser.parseRegex()`; `none` is the typed nil. -/
-  def parseRegex : P (Option Expr) := do
-    -- `if p.s.n > 0 { return nil, nil }`: no look-ahead in the rune reader while a token is pushed back
-    if (← get).n > 0 then return none
-    let c0 ← peekRune
-    if isWhitespace c0 then consumeWhitespace
-    let c ← peekRune
-    let go : P (Option Expr) := do
-      let lx ← pscanRegex
-      if lx.tok = .BADESCAPE then failAt ("bad escape: ".toList ++ lx.lit) lx.pos
-      else if lx.tok = .BADREGEX then failAt ("bad regex: ".toList ++ lx.lit) lx.pos
-      else if lx.tok ≠ .REGEX then failFound lx ["regex"]
-      else pure (some (.regex lx.lit))
-    if c = '$' then
-      let lx ← pscan
-      unscan
-      if lx.tok ≠ .REGEX then pure none else go
-    else if c ≠ '/' then pure none
-    else go
-
   /-- `Parser.parseCall(name)`. -/
   def parseCall : Nat → Str → P Expr
     | 0, _ => throw .fuel
@@ -370,19 +378,19 @@ mutual
       let name := lowerStr s.lowerTbl name0
       let first ← parseRegex
       match first with
-      | some re => callArgs fuel fuel name [re]
+      | some re => callArgs fuel name [re]
       | none =>
         let t ← pscan
         if t.tok = .RPAREN then pure (.call name [])
         else
           unscan
           let arg ← parseExpr fuel
-          callArgs fuel fuel name [arg]
+          callArgs fuel name [arg]
 
   /-- The argument loop and closing parenthesis of `parseCall`. -/
-  def callArgs : Nat → Nat → Str → List Expr → P Expr
-    | 0, _, _, _ => throw .fuel
-    | iters + 1, fuel, name, args => do
+  def callArgs : Nat → Str → List Expr → P Expr
+    | 0, _, _ => throw .fuel
+    | fuel + 1, name, args => do
       let t ← scanIW
       if t.tok ≠ .COMMA then
         unscan
@@ -391,10 +399,10 @@ mutual
         pure (.call name args)
       else
         match ← parseRegex with
-        | some re => callArgs iters fuel name (args ++ [re])
+        | some re => callArgs fuel name (args ++ [re])
         | none =>
           let arg ← parseExpr fuel
-          callArgs iters fuel name (args ++ [arg])
+          callArgs fuel name (args ++ [arg])
 end
 
 /-- Fuel that suffices for any input of this length (each level of recursion and each loop
